@@ -325,6 +325,15 @@ class Pragma(Instruction):
         return f"#pragma version {self._program_version}"
 
     @property
+    def cost(self) -> int:
+        """The pragma directive is not an opcode, it costs nothing.
+
+        Returns:
+            0
+        """
+        return 0
+
+    @property
     def program_version(self) -> int:
         """version number of teal program
 
@@ -1857,6 +1866,15 @@ class Label(InstructionWithLabel):
 
     def __str__(self) -> str:
         return f"{self._label}:"
+
+    @property
+    def cost(self) -> int:
+        """A label is not an opcode, it costs nothing.
+
+        Returns:
+            0
+        """
+        return 0
 
 
 class Callsub(InstructionWithLabel):
